@@ -165,6 +165,19 @@ def run(ctx: Ctx):
             if o[0] != "ok" or not close(h2f(o[1]), Ph[0], 1e-9):
                 ctx.disagree("C05.pexit.history", {"version": v, "model": " ".join(o), "code": float(Ph[0])})
             ctx.traces += 1
+        # ---------------- the documented range [6, 12] itself (nominal numbers, not the file's own axis values): defined, in (0,1]
+        nominal = np.arange(6.0, 12.0 + 1e-9, 0.25)
+        bn = np.array([0.0, float(gB[0]), 0.3, float(gB[-1]), 1.2])
+        for le_n in nominal:
+            ctx.case(("nominal", v, float(le_n))); ctx.count("nominal_range_energy")
+            try:
+                Pn_ = make_taus(v).tau_exit_prob(bn.copy(), np.full(len(bn), le_n))
+                if not np.all((Pn_ > 0) & (Pn_ <= 1)):
+                    ctx.violation("Taus.tau_exit_prob", "not-in-(0,1]", "exit probability outside (0,1] inside the documented energy range",
+                                  {"version": v, "log_e_nu": float(le_n), "beta": bn.tolist(), "returned": Pn_.tolist()})
+            except Exception as ex:  # noqa
+                ctx.violation("Taus.tau_exit_prob", "energy-in-range-rejected", f"an energy inside the documented range [6, 12] is rejected: {type(ex).__name__}: {str(ex)[:120]}",
+                              {"version": v, "log_e_nu": float(le_n), "table_axis_ends": [repr(float(gE[0])), repr(float(gE[-1]))]})
         # ---------------- malformed: energies outside the table
         for bad_le in (gE[0] - 1e-9, gE[-1] + 1e-9, 5.0, 13.0):
             ctx.case(("malformed", v, bad_le)); ctx.count("malformed_energy")
